@@ -31,7 +31,9 @@ enum cmi_process_awaitable_type {
     CMI_PROCESS_AWAITABLE_TIME,
     CMI_PROCESS_AWAITABLE_RESOURCE,
     CMI_PROCESS_AWAITABLE_PROCESS,
-    CMI_PROCESS_AWAITABLE_EVENT
+    CMI_PROCESS_AWAITABLE_EVENT,
+    /* The wakeup call of an ongoing hold: a timeout, but not one of the process' timers */
+    CMI_PROCESS_AWAITABLE_HOLD
 };
 
 /*
